@@ -684,3 +684,21 @@ for _p in ('C01', 'C03', 'C04', 'C05', 'C10', 'C13', 'C18'):
     if 'tied by translation' not in PROPS[_p]['technique']:
         PROPS[_p]['technique'] = PROPS[_p]['technique'] + ('; the ack / option / handshake map decoders are additionally tied by translation: bodies regenerated '
             'from the Go source on every run and proved equal to the decoder models (key loop by induction)')
+
+# ---- client method skeletons: Client.Send / SendRaw / checkAck / writeAll regenerated (translator/client.go -> Gen/Client.lean) and proved equal to
+# the sequential client model's send / sendRaw for every state, configuration, peer and network behaviour (Tie/Client.lean)
+_SKC_THEOREMS = ['FV.Tie.Client_Send_is_model', 'FV.Tie.Client_SendRaw_is_model', 'FV.Tie.writeAll_shape']
+_SKC_TEXT = (" Regenerated tie for the sending methods: the bodies of Client.Send, SendRaw, checkAck and writeAll are re-read from fluent/client/client.go on "
+             "every run as sequences of client idioms (Gen/Client.lean; anything else is `.unknown`, a panic) and Client_Send_is_model / Client_SendRaw_is_model "
+             "(Tie/Client.lean) prove that running them on any state, under any configuration, write fault and peer response, yields exactly the result and "
+             "the events of the model's send / sendRaw.")
+for _p in ('C04', 'C06', 'C08', 'C09'):
+    PROPS[_p]['translator'] = True
+    PROPS[_p]['lean_modules'] = PROPS[_p]['lean_modules'] + ['FluentVerif.Tie.Client']
+    PROPS[_p]['theorems'] = PROPS[_p]['theorems'] + _SKC_THEOREMS
+    PROPS[_p]['explanation'] = PROPS[_p]['explanation'] + _SKC_TEXT
+    PROPS[_p]['assumptions'] = PROPS[_p].get('assumptions', []) + [
+        "translator/client.go is trusted to render each recognised client idiom as the CStmt of the same meaning (DESIGN 0.9)"]
+    if 'sending methods are additionally tied by translation' not in PROPS[_p]['technique']:
+        PROPS[_p]['technique'] = PROPS[_p]['technique'] + ('; the sending methods are additionally tied by translation: bodies regenerated from the Go source '
+            'on every run and proved equal to the model\'s send / sendRaw')
